@@ -50,6 +50,7 @@ Fixpoint wfs (t : stree) : Prop :=
   match t with
   | SFile _ _ _ => True
   | SLink _ => True
+  | SSpecial _ => True
   | SDir _ _ ks =>
       sorted_strict (map fst ks) = true /\
       (fix go (l : list (str * stree)) : Prop := match l with [] => True | kc :: r => wfs (snd kc) /\ go r end) ks
@@ -122,7 +123,7 @@ Proof.
   destruct rel as [|r0 rr]; [congruence|]. set (rel := r0 :: rr) in *.
   cbn [pack_node]. rewrite strip_prefix_self. unfold rel at 1. cbn match. fold rel.
   cbn [excl fst]. rewrite rel_comps_under.
-  destruct t as [d pm mt|l|pm mt ks].
+  destruct t as [d pm mt|l|k|pm mt ks].
   - cbn [to_node is_dir]. cbn match. cbn [tentries map fold_left]. unfold of_entry, entry_name. cbn [e_name e_type e_link e_mode e_mtime e_body].
     now rewrite app_nil_r, sec_of_mtime_of.
   - cbn [to_node is_dir]. cbn match. cbn [tentries map fold_left]. unfold of_entry, entry_name. cbn [e_name e_type e_link e_mode e_mtime e_body].
@@ -132,6 +133,7 @@ Proof.
     destruct (clean_join_abs root Hroot_ok) as [Hcl Hco].
     pose proof (valid_symlink_stays (o_allow opts) (join_abs root) pre x l (conj eq_refl Hcl) Hsegs Hlk) as Hvs.
     rewrite Hco in Hvs. rewrite Hvs. reflexivity.
+  - reflexivity.
   - rewrite to_node_dir. cbn [is_dir]. cbn match.
     apply wfs_dir in Hw as [Hsorted Hwk]. apply wf_dir in Hwf as [_ Hwfk]. apply links_ok_dir in Hlk.
     rewrite tentries_dir. cbn [map fold_left]. unfold of_entry at 1. cbn [e_name e_type e_link e_mode e_mtime e_body].
@@ -261,7 +263,7 @@ Theorem pack_unpack_round_trip fs opts flags cwd fuel pre x pmR mtR ks dst pmD m
   exists es files size,
     pack fuel fs opts flags cwd (join_abs (pre ++ [x])) = (PackOk es files size, flags) /\
     unpack true (o_allow opts) fs dst (map to_entry es)
-    = (put fs (comps_of dst) (Dir pmD (match ks with [] => mtD | _ => None end) (map rp ks)), ROk).
+    = (put fs (comps_of dst) (Dir pmD (match rpk ks with [] => mtD | _ => None end) (rpk ks)), ROk).
 Proof.
   intros Hd Hr Hs Hg Hig Hh Hwf Hwfs Hlk Hdst HrD HgD.
   destruct (pack_simple_tree fs opts flags cwd fuel pre x pmR mtR ks Hd Hr Hs Hg Hig Hh Hwfs Hwf Hlk) as (files & size & Hp).
